@@ -5,7 +5,7 @@
    before it, every reference reaches its label, only zero padding up to a multiple of 4 = 4 * header word.
    Proofs: AsmLayoutProofs.v. *)
 From Coq Require Import ZArith List String Bool.
-From HexVerif Require Import WMap Isa AsmModel AsmLayout AsmSpec AsmSpecProofs AsmStatements AsmLayoutProofs.
+From HexVerif Require Import WMap Isa AsmModel AsmLayout AsmSpec AsmSpecProofs AsmStatements AsmLayoutProofs AsmWalkProofs.
 Import ListNotations.
 Local Open Scope Z_scope.
 
@@ -53,6 +53,30 @@ Theorem C05_validator_meaning : forall prog image hw,
 Proof. exact image_refs_execute. Qed.
 Print Assumptions C05_validator_meaning.
 
+(* the layout clause of the statement, spelled out for ANY image the validator accepts (AsmWalkProofs.v): the directives
+   found are the source directives in source order; they are laid out from byte 0 without overlap (laid_out: each
+   starts at or after the end of the one before); every DATA word starts on a word boundary and occupies 4 bytes; a
+   label followed, through further labels only, by DATA is placed at the DATA word (names_data); the image ends at the
+   next multiple of 4 after the last directive and the header word is its length in words *)
+Theorem C05_validator_layout : forall prog image hw,
+  check_image prog image hw = true ->
+  exists ps e, walk prog (bytes_map image) 0 = Some (ps, e) /\
+    map p_dir ps = prog /\ laid_out 0 ps e /\ data_aligned ps /\ names_data ps /\
+    e <= Z.of_nat (List.length image) /\ Z.of_nat (List.length image) = up4 e /\
+    hw * 4 = Z.of_nat (List.length image).
+Proof. exact check_image_layout. Qed.
+Print Assumptions C05_validator_layout.
+
+(* and therefore for every program the assembler model accepts *)
+Theorem C05_layout_explicit :
+  forall prog locs out, Forall wf_directive prog -> assemble_directives prog locs = Ok out -> small (ao_layout out) ->
+  exists ps e, walk prog (bytes_map (ao_image out)) 0 = Some (ps, e) /\
+    map p_dir ps = prog /\ laid_out 0 ps e /\ data_aligned ps /\ names_data ps /\
+    e <= Z.of_nat (List.length (ao_image out)) /\ Z.of_nat (List.length (ao_image out)) = up4 e /\
+    (l_size (ao_layout out) / 4) * 4 = Z.of_nat (List.length (ao_image out)).
+Proof. intros prog locs out Hwf Hasm Hsmall. apply check_image_layout. exact (layout_sound prog locs out Hwf Hasm Hsmall). Qed.
+Print Assumptions C05_layout_explicit.
+
 (* non-vacuity: a forward BR over 16 filler bytes (needs a prefix), a backward BR, an absolute reference to a
    PROC label that names padded DATA *)
 Definition C05_example : list directive :=
@@ -75,3 +99,10 @@ Example C05_validator_refuses :
   check_image C05_example [225; 143; 48; 48; 48; 48; 48; 48; 48; 48; 48; 48; 48; 48; 48; 48; 48; 48;
                            6; 255; 157; 211; 0; 0; 254; 255; 255; 255] 7 = false.
 Proof. vm_compute. reflexivity. Qed.
+
+(* non-vacuity of the layout clause: the example's DATA word sits at byte 24, named by the PROC label placed there *)
+Example C05_example_layout :
+  exists ps e, walk C05_example (bytes_map [225; 144; 48; 48; 48; 48; 48; 48; 48; 48; 48; 48; 48; 48; 48; 48; 48; 48;
+                    6; 255; 157; 211; 0; 0; 254; 255; 255; 255]) 0 = Some (ps, e) /\ e = 28 /\
+    map p_start (skipn 21 ps) = [24; 24].
+Proof. eexists. eexists. split; [vm_compute; reflexivity|]. split; reflexivity. Qed.
